@@ -23,15 +23,15 @@ type c16Kind struct {
 }
 
 var c16Kinds = []c16Kind{
-	{"primary-key", []string{"PRIMARY KEY", "PRIMARY KEY DESC", "PRIMARY KEY ASC", "PRIMARY KEY AUTOINCREMENT"}, func(c *sql.ColumnDef) interface{} {
+	{"primary-key", []string{"PRIMARY KEY", "PRIMARY KEY DESC", "PRIMARY KEY ASC", "PRIMARY KEY AUTOINCREMENT", "CONSTRAINT cpk PRIMARY KEY"}, func(c *sql.ColumnDef) interface{} {
 		return []interface{}{c.PrimaryKey, c.PrimaryKeyDir, c.AutoIncrement}
 	}},
-	{"unique", []string{"UNIQUE"}, func(c *sql.ColumnDef) interface{} { return c.Unique }},
-	{"null", []string{"NOT NULL", "NULL"}, func(c *sql.ColumnDef) interface{} { return c.Null }},
-	{"collate", []string{"COLLATE NOCASE", "COLLATE RTRIM"}, func(c *sql.ColumnDef) interface{} { return c.Collate }},
-	{"default", []string{"DEFAULT 1", "DEFAULT 'x'", "DEFAULT NULL", "DEFAULT -2", "DEFAULT TRUE", "DEFAULT bare"}, func(c *sql.ColumnDef) interface{} { return c.Default }},
-	{"check", []string{"CHECK (a > 0)", "CHECK (a IS NOT NULL)"}, func(c *sql.ColumnDef) interface{} { return c.Checks }},
-	{"references", []string{"REFERENCES o(x)", "REFERENCES o(x) ON DELETE CASCADE", "REFERENCES o(x) DEFERRABLE INITIALLY DEFERRED", "REFERENCES o ON UPDATE SET NULL ON DELETE NO ACTION", "REFERENCES o(x) MATCH FULL"}, func(c *sql.ColumnDef) interface{} {
+	{"unique", []string{"UNIQUE", "CONSTRAINT cu UNIQUE"}, func(c *sql.ColumnDef) interface{} { return c.Unique }},
+	{"null", []string{"NOT NULL", "NULL", "CONSTRAINT cn NOT NULL", "CONSTRAINT cnn NULL"}, func(c *sql.ColumnDef) interface{} { return c.Null }},
+	{"collate", []string{"COLLATE NOCASE", "COLLATE RTRIM", "CONSTRAINT cc COLLATE NOCASE"}, func(c *sql.ColumnDef) interface{} { return c.Collate }},
+	{"default", []string{"DEFAULT 1", "DEFAULT 'x'", "DEFAULT NULL", "DEFAULT -2", "DEFAULT TRUE", "DEFAULT bare", "CONSTRAINT cd DEFAULT 5"}, func(c *sql.ColumnDef) interface{} { return c.Default }},
+	{"check", []string{"CHECK (a > 0)", "CHECK (a IS NOT NULL)", "CONSTRAINT ck CHECK (a > 0)"}, func(c *sql.ColumnDef) interface{} { return c.Checks }},
+	{"references", []string{"REFERENCES o(x)", "REFERENCES o(x) ON DELETE CASCADE", "REFERENCES o(x) DEFERRABLE INITIALLY DEFERRED", "REFERENCES o ON UPDATE SET NULL ON DELETE NO ACTION", "REFERENCES o(x) MATCH FULL", "CONSTRAINT cr REFERENCES o(x)"}, func(c *sql.ColumnDef) interface{} {
 		if c.References == nil {
 			return nil
 		}
